@@ -3,7 +3,7 @@
    edgeLengthRads, Km, M) and C11 (vertexToLatLng), on integer observations: coordinates are projected by the
    driver onto vertex ids (points within 1e-12 rad share an id; ids are local to one event) and onto
    integer deviations.  The structure is judged here against the neighbour graph N of H3Grid. *)
-EXTENDS H3Grid, BigNat, TraceBase, FiniteSets
+EXTENDS H3FaceIJK, BigNat, TraceBase, FiniteSets
 VARIABLES l, sum, cnt
 vars == <<l, sum, cnt>>
 
@@ -36,6 +36,8 @@ BoundaryNbhdOK(e) ==
   /\ ValidCell(e.h) /\ e.r = 0 /\ e.rc = 0 /\ e.n = n
   /\ IF IsPentC(c) THEN n = (IF odd THEN 10 ELSE 5)                 \* 5 or 10 for a pentagon
      ELSE IF odd THEN n \in 6..8 ELSE n = 6                          \* distortion vertices only at odd resolutions
+  /\ n = BoundaryPoints(c)                                          \* exactly the count the face lattice predicts: an extra point on
+                                                                    \* every edge whose corners lie on different icosahedron faces
   /\ Cardinality(SeqRange(ids)) = n                                  \* no repeated point
   /\ e.ccw = 1                                                       \* counter-clockwise, centre strictly inside
   /\ nbW = WordsOf(N(c))
@@ -60,6 +62,7 @@ BoundaryLiteOK(e) ==
   LET c == CellOf(e.h)   n == Len(e.ids)   odd == c.r % 2 = 1 IN
   /\ ValidCell(e.h) /\ e.r = 0 /\ e.rc = 0 /\ e.n = n
   /\ IF IsPentC(c) THEN n = (IF odd THEN 10 ELSE 5) ELSE IF odd THEN n \in 6..8 ELSE n = 6
+  /\ n = BoundaryPoints(c)
   /\ Cardinality(SeqRange(e.ids)) = n
   /\ e.ccw = 1
 
